@@ -1,7 +1,7 @@
 //! C09 — smart-dial ranking is a complete, well-ordered permutation.
 //!
 //! Real `rank_dials` (cfg hook `libp2p_swarm::verif::rank_dials`, forwarding) over **all multisets** up
-//! to a bound of a 24-address alphabet (IPv4/IPv6 x private/public x tcp/quic-v1/quic/webtransport/
+//! to a bound of a 26-address alphabet (IPv4/IPv6 x private/public x tcp/quic-v1/quic/webtransport/
 //! webrtc-direct, DNS localhost / non-local, dnsaddr, relay).
 //!
 //! Oracle written from the statement: (1) output is a permutation of the input multiset; (2) every
@@ -42,6 +42,9 @@ fn alphabet() -> Vec<Multiaddr> {
         format!("/ip4/8.8.8.8/tcp/4001/p2p/{R}/p2p-circuit"),
         format!("/ip4/8.8.8.8/udp/4001/quic-v1/p2p/{R}/p2p-circuit"),
         format!("/dns/relay.example.com/tcp/443/p2p/{R}/p2p-circuit"),
+        // circuits through relays that are themselves on a private / loopback address are still relay dials
+        format!("/ip4/192.168.1.9/tcp/4001/p2p/{R}/p2p-circuit"),
+        format!("/ip4/127.0.0.1/udp/4001/quic-v1/p2p/{R}/p2p-circuit"),
     ];
     s.iter().map(|x| x.parse().expect("alphabet parses")).collect()
 }
@@ -136,7 +139,7 @@ pub fn run(args: &Args) -> i32 {
     let check = Check::new(
         args,
         "exploration",
-        "all multisets of size 0..=K over a 24-address alphabet (K=4 quick, 6 thorough), enumerated exhaustively; non-trivial = multiset spanning \
+        "all multisets of size 0..=K over a 26-address alphabet (K=4 quick, 6 thorough), enumerated exhaustively; non-trivial = multiset spanning \
          >= 2 groups or containing both a QUIC and a TCP address; distinct by multiset",
     );
     let tiny = args.extra.get("budget").map(|s| s == "tiny").unwrap_or(false);
